@@ -155,6 +155,7 @@ class Ocp(Stage):
         self._method.debug
 
     def solver(self, solver, solver_options={}):
+        self._set_transcribed(False)
         self._method.solver(solver, solver_options)
 
     def show_infeasibilities(self, *args):
